@@ -96,6 +96,7 @@ where
             }
         }
         tr.raw(&format!("{{\"op\":\"begin\",\"name\":\"{}\",\"t\":{},\"k\":{},\"n\":{}}}", ev.op, ev.t, ev.k, ev.n));
+        tr.flush(); // the marker must survive a crash inside the call
         ev.v = 0;
         // reference for the shrink contract: what a fresh with_capacity(max(len, m)) holds (measured, not computed)
         if ev.op == "shrink_to" || ev.op == "shrink_to_fit" {
